@@ -301,6 +301,13 @@ def gen_cases(tier, seed):
         add("N", "".join(rng.choice(num_alpha) for _ in range(rng.choice([1, 2, 3, 4, 6, 10]))), "-", "soup", None)
         add("C", "".join(rng.choice(cl_alpha) for _ in range(rng.choice([0, 1, 2, 3, 4, 6, 10, 16]))), "-", "soup", None)
         add("B", "".join(rng.choice(bl_alpha) for _ in range(rng.choice([0, 1, 2, 3, 4, 6, 10, 16]))), "-", "soup", None)
+    # \u{...} escapes at and beyond the edges of the scalar-value range (surrogates, > 10FFFF, empty, non-hex,
+    # very long): never a value, never a panic
+    for h in ["D800", "d800", "DBFF", "DC00", "DFFF", "dfff", "D7FF", "E000", "10FFFF", "110000", "FFFFFF", "FFFFFFFF", "FFFFFFFFF",
+              "7FFFFFFF", "80000000", "", "g", "-1", "+41", " 41", "0x41", "41 ", "00000000000000000041", "1_0", "٣"]:
+        for q in (1, 3):
+            for pre_, post_ in (("", ""), ("x", "y"), ("\\u{d83d}", ""), ("", "\\u{de00}")):
+                add("C", '"' * q + pre_ + "\\u{" + h + "}" + post_ + '"' * q, "-", "soup", None)
     # the grammar of str::parse::<f64> (reached through parse_simple_number when the text is not an i32)
     for t in ["nan", "NaN", "inf", "-inf", "+Infinity", "infinit", "1e5", "1E5", "1e+5", "1e-5", "1e", "1e+", ".5", "5.", ".", "+1", "-1",
               "+", "-", "+.5e1", "-0.0", "0e0", "00.100", "1.5e3x", "1..5", "1.5.2", "e5", "1e5.0", "1e999999999999999999999",
@@ -520,6 +527,13 @@ def run_check(tier, seed):
                     v.tie_failure("harness: %s -> %s (malformed text; outside the model)" % (case, res))
                 continue
             impl_f = split_fields(res)
+            lit_panics = [f for f in ("S", "B") if impl_f.get(f, "") == "PANIC"] + [f for f in ("PS", "PB") if after.get(f, "") == "PANIC"]
+            if impl_f.get("D") == "PANIC" and not any(impl_f.get(f, "").startswith(NOT_LITERAL) for f in ("S", "B")):
+                lit_panics.append("D")
+            if lit_panics:
+                v.violation(component="literal", input=case, text=uncps(case.split(" ")[1]), observed_at="/".join(lit_panics), impl=res[:300],
+                            expected="a value or an error", clause=clause, what="evaluating the literal panics")
+                continue
             stats[clause] += 1
             stats["by_kind"][kind] += 1
             cls = impl_f["D"].split(":")[0] if ":" in impl_f["D"] else impl_f["D"]
